@@ -243,6 +243,120 @@ def utf8_boundary_validators(ctx, rule):
         ctx.ob(rule, "utf8-%s-is-code-point-boundary" % fn, bad is None and len(fe) >= 3, bad or "empty, or futf classifies the code point at the boundary as whole", "tendril fmt UTF8::" + fn)
 
 
+def wtf8_boundary_validators(ctx, rule):
+    """WTF8::validate_prefix / validate_suffix: the empty slice is valid (popping everything, an empty subtendril); otherwise the
+    code point futf finds at the last / first byte must be meaningful for WTF-8"""
+    for fn, at in (("validate_suffix", "0"), ("validate_prefix", "(p1.len() - 1)")):
+        key, pcs = nfq.cells(ctx, AREA, "fmt::WTF8[Format]::" + fn)
+        fe = nfq.feasible(pcs)
+        bad = None
+        seen = set()
+        for pc in fe:
+            g = pc["guards"]
+            empty = gval(g, "p1.is_empty()")
+            if empty is None:
+                empty = gval(g, "p1.len() == 0")
+            found = [v for k, v in g.items() if re.fullmatch(r"classify\(p1,%s\) matches Some\(_\)(#\d+)?" % re.escape(at), k)]
+            mean = [v for k, v in g.items() if re.fullmatch(r"wtf8_meaningful\(classify\(p1,%s\)\.0\.meaning\)(#\d+)?" % re.escape(at), k)]
+            if empty is True:
+                want = "true"
+                seen.add("empty")
+            elif empty is None:
+                want = None
+            elif found == [True] and mean:
+                want = "true" if mean[-1] else "false"
+                seen.add("meaning")
+            elif found == [False]:
+                want = "false"
+            else:
+                want = None
+            if want is None or str(pc["ret"]) != want:
+                bad = "%s answers %s under %s: it is not 'empty, or the code point at %s is meaningful' - without the emptiness test an empty slice (pop everything, subtendril of length 0) is rejected" % (
+                    fn, pc["ret"], {k[-50:]: v for k, v in g.items()}, "the first byte" if at == "0" else "the last byte")
+        ctx.ob(rule, "wtf8-%s-empty-or-meaningful" % fn, bad is None and {"empty", "meaning"} <= seen, bad or "empty, or futf classifies the code point at the boundary as meaningful", "tendril fmt WTF8::" + fn)
+
+
+def ascii_bound(ctx, rule):
+    """the ASCII format: validate accepts exactly the bytes 0..=0x7F, and encode_char accepts exactly the characters 0..=0x7F (its
+    one comparison, evaluated on both sides of the boundary): a byte >= 0x80 in an ASCII tendril makes its free view as UTF-8
+    invalid"""
+    from . import predtable as pt
+    its = [x for x in ctx.ast.walkable("tendril") if x["k"] == "Fn" and x["name"] == "encode_char" and "ASCII" in (x.get("self_ty") or "") and x.get("body") is not None]
+    if len(its) != 1:
+        raise AnchorMissing("ASCII::encode_char")
+    from lib.ast import walk
+    conds = []
+
+    def f(n):
+        if n.get("k") == "If" and n["cond"].get("k") == "Binary" and n["cond"]["op"] in ("<", ">", "<=", ">=", "==", "!="):
+            conds.append(n)
+    walk(its[0]["body"], f)
+    bad = None
+    if len(conds) != 1:
+        bad = "encode_char has %d comparisons; expected the single range test" % len(conds)
+    else:
+        c = conds[0]["cond"]
+        names = []
+
+        def g(n):
+            if n.get("k") == "Path" and "::" not in n["path"] and n["path"] not in names:
+                names.append(n["path"])
+        walk(c, g)
+        var = [x for x in names if not x.isupper()]
+        consts = {}
+        for x in names:
+            if x.isupper():
+                try:
+                    consts[x] = int(_const_val(ctx, x))
+                except Exception:
+                    pass
+        e = _py_expr_cmp(c, var[:1] + list(consts))
+        if e is None or len(var) != 1:
+            bad = "the range test of encode_char is not a comparison of the character's number with a constant"
+        else:
+            then_err = "Err" in str(conds[0]["then"])
+            for n in (0, 0x41, 0x7E, 0x7F, 0x80, 0x81, 0xFF, 0x100, 0x10FFFF):
+                env = dict(consts)
+                env[var[0]] = n
+                rejected = bool(eval(e, {}, env)) if then_err else not bool(eval(e, {}, env))
+                if rejected != (n > 0x7F):
+                    bad = "encode_char %s U+%04X; ASCII is U+0000..=U+007F" % ("rejects" if rejected else "accepts", n)
+                    break
+    ctx.ob(rule, "ascii-encode_char-bound", bad is None, bad or "accepts exactly U+0000..=U+007F", "tendril fmt ASCII::encode_char")
+    key, pcs = nfq.cells(ctx, AREA, "fmt::ASCII[Format]::validate")
+    bad = None
+    n = 0
+    for pc in nfq.feasible(pcs):
+        for k in pc["guards"]:
+            m = re.search(r"\.all\(\|\.\.\|\{?\(?(a1 <= (\d+)|a1 < (\d+)|\((\d+) < a1\))", k)
+            if m:
+                n += 1
+                lim = int(m.group(2)) if m.group(2) else int(m.group(3)) - 1 if m.group(3) else None
+                if lim != 127:
+                    bad = "validate accepts bytes up to %s" % lim
+    ctx.ob(rule, "ascii-validate-bound", bad is None and n >= 1, bad or "all bytes <= 0x7F", "tendril fmt ASCII::validate")
+
+
+def _const_val(ctx, name):
+    for it in ctx.ast.walkable("tendril"):
+        if it["k"] in ("Const", "Static") and it.get("name") == name and it.get("init") is not None:
+            e = it["init"]
+            while e.get("k") in ("Paren", "Cast"):
+                e = e["e"]
+            if e.get("k") == "Lit":
+                return e["v"]
+    raise AnchorMissing(name)
+
+
+def _py_expr_cmp(e, names):
+    if e.get("k") == "Paren":
+        return _py_expr_cmp(e["e"], names)
+    if e.get("k") == "Binary" and e["op"] in ("<", ">", "<=", ">=", "==", "!="):
+        l, r = _py_expr(e["l"], names), _py_expr(e["r"], names)
+        return None if l is None or r is None else "((%s) %s (%s))" % (l, e["op"], r)
+    return None
+
+
 def _py_expr(e, names):
     """translate a pure integer expression of the syntax tree to a Python expression over `names`; None when it is not one"""
     k = e.get("k")
@@ -364,6 +478,9 @@ def r11_11(ctx):
 
 
 def run(ctx):
+    ctx.rule("R11.12", "WTF8's boundary validators accept the empty slice; ASCII accepts exactly U+0000..=U+007F in both validate and encode_char")
+    ctx.guard("R11.12", "wtf8-boundary", lambda: wtf8_boundary_validators(ctx, "R11.12"))
+    ctx.guard("R11.12", "ascii", lambda: ascii_bound(ctx, "R11.12"))
     ctx.rule("R11.11", "WTF8::validate rejects a trail surrogate only directly after a lead surrogate: the adjacency flag is recomputed after every code point")
     ctx.guard("R11.11", "wtf8-validate", lambda: r11_11(ctx))
     ctx.rule("R11.9", "make_owned: inline or shared tendrils become an owned copy of their own bytes; nothing is taken over in place")
